@@ -6,7 +6,7 @@ import re
 from .base import viol, common_stats, sample_of
 from .motion import MotionMonitor, mk
 from ..e2e import run_case
-from ..refprinter import tokenize, last_values
+from ..refprinter import tokenize, last_values, Printer
 from ..harness import DEFAULT_EXT
 
 RESYNC = re.compile(r"^(G92 E\S+|G0 F\S+( [XYZ]\S+)+|G90|G91)$")
@@ -47,6 +47,7 @@ class C07(MotionMonitor):
     classes = [(3, "hostile-values", mk(hv=True, rel=True, inch=True, arcs=True, spell=True)),
                (3, "hostile-values-free-e", mk(hv=True, rel=True, inch=True, egrid=False, g92e_retracted=True, p_inside=0.5)),
                (2, "hostile-values-firmware", mk(hv=True, fw=True, rel=True, inch=True)),
+               (1.5, "firmware-mixed-parameters", mk(fw=True, fwparam_mix=True, p_inside=0.55)),
                (2, "plain", mk(rel=True, inch=True, arcs=True, at=True, retmove=True)),
                (1, "plain-g92e-retracted", mk(g92e_retracted=True, inch=True)),
                (1.5, "relative-extrusion", mk(rel=True, inch=True, g90e=True, g92e_retracted=True, p_inside=0.5))]
@@ -78,7 +79,11 @@ class C07(MotionMonitor):
         pending = collections.OrderedDict()      # merge model: code -> OrderedDict(letter -> value) (latest per letter)
         tr.case["_has_retract_on_move"] = any(r["kind"] == "g" and r.get("is_move") and
                                                r["B_after"]["fil"] < r["B_before"]["fil"] - 1e-12 for r in tr.steps)
+        tr.fw_seen = []         # firmware retract / recover commands the printer has executed before the current step
+        prev_fw = []
         for r in tr.steps:
+            tr.fw_seen.extend(prev_fw)
+            prev_fw = list(r.get("a_fw") or [])
             if r["kind"] == "g":
                 seen_inputs.add(r["cmd"])
             if r["kind"] not in ("g", "at"):
@@ -208,6 +213,19 @@ class C07(MotionMonitor):
                 out.append(viol(tr, r, "resync-g92-value", "%r: file E after the command is %r mm" % (gen, r["B_after"]["e"])))
         elif all(c in ("G10", "G11") for c in codes):
             stats["c07_firmware_generated"] += 1
+            # intended value of a generated G11: the parameters of the G10 the printer last executed (what is being undone)
+            for c in gen:
+                if tokenize(c)[0] != "G11":
+                    continue
+                last_g10 = [f for f in tr.fw_seen if f[0] == "G10" and not f[2]]
+                if not last_g10:
+                    continue
+                stats["c07_generated_g11_parameters_compared"] += 1
+                want = "".join(last_g10[-1][1].split()).upper()
+                got = "".join(Printer._params(c).split()).upper()
+                if got != want:
+                    out.append(viol(tr, r, "generated-recover-parameters", "%r generated, the retraction being undone was 'G10 %s'"
+                                    % (c, last_g10[-1][1])))
         else:
             stats["c07_generated_shape_not_classified"] += 1     # grammar was checked; no intended value is known for it
         return out
